@@ -450,8 +450,8 @@ def install4(R: Registry):
     R.external("Socket.recv_into", params=dict(self="Socket", buf="Buffer", n="Int", flags="Int"), returns="Int",
                requires=[("C03", "not self.closed", "recv on a closed socket raises OSError"),
                          ("C03 C05", "0 <= n and n <= nbytes(buf)", "recv_into raises ValueError for a negative size or one larger than the buffer")],
-               modifies=["MessageManager.hdr_obj", "MessageManager.data_obj"],
-               ensures=["0 <= result and result <= n",
+               modifies=["MessageManager.hdr_obj", "MessageManager.data_obj", "glob:rx_short"],
+               ensures=["0 <= result and result <= n", "rx_short == (old(rx_short) or result < n)",
                         "implies(buf.role == 1, fresh(buf.owner.hdr_obj) and allocated(buf.owner.hdr_obj) and dtype(buf.owner.hdr_obj) == buf.owner.header_cls and buf.owner.data_obj == old(buf.owner.data_obj))",
                         "implies(buf.role != 1, fresh(buf.owner.data_obj) and allocated(buf.owner.data_obj) and buf.owner.hdr_obj == old(buf.owner.hdr_obj))",
                         "forall('mm:MessageManager', implies(mm != buf.owner, mm.hdr_obj == old(mm.hdr_obj) and mm.data_obj == old(mm.data_obj)))"],
@@ -605,12 +605,13 @@ def install6(R: Registry):
     """sixth part: read_message, process_message (C01 C03 C05 C19), statistics (C18)"""
     TOP_REQ, TOP_ENS, TOP_MOD = R.TOP_REQ, R.TOP_ENS, R.TOP_MOD
     IDENT = ["Module.mod_id", "Module.unique", "Module.pid", "Module.name", "Module.is_logger", "Module.is_daemon", "Module.connected"]
-    RD_MOD = TOP_MOD + ["MessageManager.hdr_obj", "MessageManager.data_obj"]
+    RD_MOD = TOP_MOD + ["MessageManager.hdr_obj", "MessageManager.data_obj", "glob:rx_short"]
     R.contract(M + "MessageManager.read_message", tags="C03 C05 C07", returns="Bool",
                params=dict(sock="Socket"),
                requires=TOP_REQ + ["dom(self.modules)[sock]", "self.modules[sock] != self.mm_module"],
-               modifies=RD_MOD,
+               modifies=RD_MOD, ghost_entry=["rx_short = False"],
                ensures=TOP_ENS + [
+                   ("C07 C05 C01", "implies(result, not rx_short)", "a frame is accepted only if every read returned all the bytes asked for: a client that closes inside a frame is removed, its partial frame is never forwarded"),
                    ("C03 C05", "implies(result, 0 <= self.hdr_obj.num_data_bytes and self.hdr_obj.num_data_bytes <= 1048576)",
                     "a frame is only processed when its declared payload length fits the receive buffer"),
                    ("C03", "implies(result, self.modules == old(self.modules) and self.subscriptions == old(self.subscriptions) and self.logger_modules == old(self.logger_modules) and "
